@@ -40,7 +40,7 @@ class Server(object):
         try:
             is_ok = True
             result = getattr(self, name)(*args, **kwargs)
-        except (Exception, SystemExit) as e:
+        except (Exception, SystemExit, KeyboardInterrupt) as e:
             # a request must not take the server down: eval('sys.exit()')
             logger.exception('%s error', name)
             is_ok = False
